@@ -23,6 +23,7 @@ func main() {
 	defer drv.Close()
 	runInclude(f, res, drv)
 	runPull(f, res, drv)
+	runMulti(f, res, drv)
 	runSched(f, res, drv)
 	runBooking(f, res, drv)
 	if err := res.Write(f.Out); err != nil {
@@ -65,6 +66,18 @@ func replay(f lib.Flags) int {
 			fmt.Printf("replay pull burst %v -> results %v events %v list %s\n", b.Ops, b.Results, b.Events, b.List)
 		}
 		s.monitor(m, obs)
+	case "multi":
+		var ms multiSession
+		if err := json.Unmarshal(raw, &ms); err != nil {
+			lib.Fatal(err)
+		}
+		per := ms.run()
+		for k, obs := range per {
+			for _, b := range obs {
+				fmt.Printf("replay shared-bus subscriber %d burst %v -> results %v events %v list %s\n", k+1, b.Ops, b.Results, b.Events, b.List)
+			}
+		}
+		ms.monitor(m, per)
 	case "booking":
 		var c bookingCase
 		if err := json.Unmarshal(raw, &c); err != nil {
